@@ -68,6 +68,19 @@ fn main() {
     cpu::install();
     trap::mmu_install();
     let mut o = Out::create(&args.out);
+    let r = std::panic::catch_unwind(std::panic::AssertUnwindSafe(|| run(&args, &mut o)));
+    if r.is_err() {
+        // only reached for a panic raised inside the crate under test (see out::silence_panics)
+        let (file, line) = out::UNCAUGHT.lock().unwrap().clone().unwrap_or(("?".into(), 0));
+        let file = file.rsplit("/src/").next().unwrap_or("?").replace(['"', '\\'], "");
+        o.emit(out::Ev::new("uncaught_panic").str("file", &file).n("line", line as i64));
+    }
+    o.flush();
+    eprintln!("xv: {} events -> {}", o.count, args.out);
+}
+
+fn run(args: &Args, o: &mut Out) {
+    let mut o = o;
     match args.family.as_str() {
         "addr" => match args.prop.as_str() {
             "C03" => addr::run_c03(&mut o, args.seed, args.n),
@@ -103,6 +116,4 @@ fn main() {
         }
         _ => usage(),
     }
-    o.flush();
-    eprintln!("xv: {} events -> {}", o.count, args.out);
 }
